@@ -26,7 +26,7 @@ func spawnPipe[I, O any](capacity int, inputs [][]I, build func(in []<-chan I) [
 	for i, data := range inputs {
 		simrt.GoKind("prod", func() {
 			for _, v := range data {
-				simrt.Yield(-2, "prod-send")
+				prodYield()
 				ins[i] <- v
 				res.Fed[i]++
 			}
@@ -283,7 +283,7 @@ func (c09) Run(c *Case, st *Stats) []Violation {
 			in := make(chan *asset.Snapshot, c.Cap)
 			simrt.GoKind("prod", func() {
 				for _, v := range series[k] {
-					simrt.Yield(-2, "prod-send")
+					prodYield()
 					in <- v
 				}
 				simrt.Yield(-3, "prod-close")
